@@ -74,12 +74,13 @@ func (toks tokens) indexAny(s tokenType) int {
 }
 
 type lexer struct {
-	input string
-	toks  [64]token
-	len   int
-	start int
-	pos   int
-	width int
+	input    string
+	toks     [64]token
+	len      int
+	start    int
+	pos      int
+	width    int
+	starStar bool // a "**" has been seen: only a verb may follow
 }
 
 func (l *lexer) tokens() tokens { return l.toks[:l.len] }
@@ -249,6 +250,7 @@ func lexSegment(l *lexer) error {
 	case r == '*':
 		rn := l.next()
 		if rn == '*' {
+			l.starStar = true
 			return l.emit(tokenStarStar)
 		}
 		l.backup()
@@ -269,6 +271,10 @@ func lexSegments(l *lexer) error {
 		if r := l.next(); r != '/' {
 			l.backup() // unknown
 			return nil
+		}
+		if l.starStar {
+			// "**" must be the last segment of the template.
+			return l.errUnexpected()
 		}
 		if err := l.emit(tokenSlash); err != nil {
 			return err
